@@ -21,7 +21,7 @@ func init() {
 			c.runTriVert("TRIVERT", append(c.libPkgs()[:2:2], c.fixturePkg("g")), c.fileFilter("triangulate.go"))
 			c.floor("TRIVERT", 4)
 			c.runCapPair("CAPPAIR", append(c.libPkgs()[:3:3], c.fixturePkg("g")))
-			c.floor("CAPPAIR", 1)
+			c.floor("CAPPAIR", 0)
 		},
 		SelfTest: []Mutation{
 			{Name: "planar face triangulation rebuilds its vertices from the projection (defect repaired)", File: "model3d/triangulate.go",
@@ -178,6 +178,51 @@ func (c *Ctx) runCapPair(rule string, pkgs []*packages.Package) {
 						}
 						return true
 					})
+					// the same pair written through a helper that lifts three
+					// corners to a height: h(t[i], t[j], t[k], z)
+					ast.Inspect(body, func(n2 ast.Node) bool {
+						call, ok := n2.(*ast.CallExpr)
+						if !ok || len(call.Args) != 4 {
+							return true
+						}
+						fn := calleeFunc(info, call)
+						if fn == nil || !c.isRepoPkg(fn.Pkg()) {
+							return true
+						}
+						hfd, hp := c.funcDecl(fn)
+						hperm := liftHelperPerm(hp, hfd)
+						if hperm == nil {
+							return true
+						}
+						cp := cap{pos: call.Pos(), z: types.ExprString(call.Args[3])}
+						var idx []int
+						for _, a := range call.Args[:3] {
+							ix, ok := ast.Unparen(a).(*ast.IndexExpr)
+							if !ok {
+								return true
+							}
+							tv := info.Types[ix.Index]
+							if tv.Value == nil {
+								return true
+							}
+							k, err := strconv.Atoi(tv.Value.ExactString())
+							if err != nil {
+								return true
+							}
+							src := types.ExprString(ix.X)
+							if cp.src == "" {
+								cp.src = src
+							} else if cp.src != src {
+								return true
+							}
+							idx = append(idx, k)
+						}
+						for _, m := range hperm {
+							cp.perm = append(cp.perm, idx[m])
+						}
+						caps = append(caps, cp)
+						return true
+					})
 					for i := 0; i < len(caps); i++ {
 						for j := i + 1; j < len(caps); j++ {
 							a, b := caps[i], caps[j]
@@ -199,6 +244,67 @@ func (c *Ctx) runCapPair(rule string, pkgs []*packages.Package) {
 			}
 		}
 	}
+}
+
+// liftHelperPerm: fd is func(p1, p2, p3 <coord>, z float64) whose body returns
+// a triangle literal with one corner per parameter, each built from that
+// parameter's components and z; the order in which the literal uses the three
+// parameters.
+func liftHelperPerm(p *packages.Package, fd *ast.FuncDecl) []int {
+	if p == nil || fd == nil || fd.Body == nil || fd.Type.Params == nil {
+		return nil
+	}
+	info := p.TypesInfo
+	var params []types.Object
+	for _, fl := range fd.Type.Params.List {
+		for _, n := range fl.Names {
+			params = append(params, info.Defs[n])
+		}
+	}
+	if len(params) != 4 {
+		return nil
+	}
+	var perm []int
+	ast.Inspect(fd.Body, func(n ast.Node) bool {
+		cl, ok := n.(*ast.CompositeLit)
+		if !ok || len(cl.Elts) != 3 || !isTriangleArray(info.TypeOf(cl)) || perm != nil {
+			return true
+		}
+		var got []int
+		for _, e := range cl.Elts {
+			call, ok := ast.Unparen(e).(*ast.CallExpr)
+			if !ok || len(call.Args) < 3 {
+				return true
+			}
+			sel, ok := ast.Unparen(call.Args[0]).(*ast.SelectorExpr)
+			if !ok {
+				return true
+			}
+			id, ok := ast.Unparen(sel.X).(*ast.Ident)
+			if !ok {
+				return true
+			}
+			zid, ok := ast.Unparen(call.Args[len(call.Args)-1]).(*ast.Ident)
+			if !ok || info.Uses[zid] != params[3] {
+				return true
+			}
+			k := -1
+			for i := 0; i < 3; i++ {
+				if info.Uses[id] == params[i] {
+					k = i
+				}
+			}
+			if k < 0 {
+				return true
+			}
+			got = append(got, k)
+		}
+		if len(got) == 3 && got[0] != got[1] && got[1] != got[2] && got[0] != got[2] {
+			perm = got
+		}
+		return true
+	})
+	return perm
 }
 
 func permParity(p []int) int {
